@@ -439,14 +439,40 @@ Section Main.
   (* an attribute map of the class would capture the xsi:type attribute (finding C01-F2) *)
   Definition xsi_free (cl : cls) (xt : option qname) : Prop :=
     xsi_val xt <> None -> forall m, u_meta u cl = Some m -> find_any_attributes m XSI_TYPE = None.
+  (* nk: the element keeps xsi:nil="true" - an empty instance of a nillable class whose attribute map (if any)
+     does not capture xsi:nil *)
+  Definition nil_ok (cl : cls) (o : value) (nk : bool) : Prop :=
+    nk = true -> strict_empty u o = true
+                 /\ forall m, u_meta u cl = Some m -> m_nillable m = true /\ find_any_attributes m XSI_NIL = None.
+  Definition xn_of (nk : bool) : option bool := if nk then Some true else None.
+  Lemma xn_true nk : match xn_of nk with Some true => true | _ => false end = nk.
+  Proof. destruct nk; reflexivity. Qed.
+  Lemma nil_ok_item var k cl' fs' n :
+    v_types var = [TClass k] -> fits_item (fits n) var (VObj cl' fs') = true -> fits n cl' (VObj cl' fs') = true ->
+    nil_ok cl' (VObj cl' fs') (nil_kept u (v_nillable var || cnil u (VObj cl' fs')) (VObj cl' fs')).
+  Proof.
+    intros Hty Hfi Hf. unfold nil_ok, nil_kept. intros H. apply andb_true_iff in H as [Hb Hnc]. apply negb_true_iff in Hnc.
+    destruct (cnil u (VObj cl' fs')) eqn:Ec.
+    - destruct (fits_content c u ok py_isspace _ _ _ Hf Ec) as [Hh|[_ [Hse [m0 [Hm0 [Hn0 Hf0]]]]]]; [rewrite Hh in Hnc; discriminate Hnc|].
+      split; [exact Hse|]. intros m1 Hm1. rewrite Hm0 in Hm1. inversion Hm1; subst m1. split; assumption.
+    - rewrite orb_false_r in Hb.
+      destruct (fits_item_content c u ok _ var k _ Hty Hfi Hb) as [Hh|Hh]; [rewrite Hh in Hnc; discriminate Hnc|].
+      rewrite Hh in Ec. discriminate Ec.
+  Qed.
+  Lemma nil_ok_top cl o n : fits n cl o = true -> nil_ok cl o (nil_kept u (cnil u o) o).
+  Proof.
+    intros Hf. unfold nil_ok, nil_kept. intros H. apply andb_true_iff in H as [Hb Hnc]. apply negb_true_iff in Hnc.
+    destruct (fits_content c u ok py_isspace _ _ _ Hf Hb) as [Hh|[_ [Hse [m0 [Hm0 [Hn0 Hf0]]]]]]; [rewrite Hh in Hnc; discriminate Hnc|].
+    split; [exact Hse|]. intros m1 Hm1. rewrite Hm0 in Hm1. inversion Hm1; subst m1. split; assumption.
+  Qed.
   Definition obj_parses (k : nat) : Prop :=
-    forall cl o qn xt, wfr cl -> fits k cl o = true -> xsi_okq xt -> xsi_free cl xt ->
-    forall pevs, reads (add_xsi_e xt (eobj k qn o)) pevs ->
+    forall cl o qn xt nk, wfr cl -> fits k cl o = true -> xsi_okq xt -> xsi_free cl xt -> nil_ok cl o nk ->
+    forall pevs, reads (add_nil_e nk (add_xsi_e xt (eobj k qn o))) pevs ->
     exists attrs ns inner,
       pevs = PStart (elem_name qn cl) attrs ns :: inner
-      /\ Parser.xsi_type_of c attrs ns = ROk (xsi_val xt) /\ assoc XSI_NIL attrs = None
+      /\ Parser.xsi_type_of c attrs ns = ROk (xsi_val xt) /\ xsi_nil_of attrs = xn_of nk
       /\ forall m, u_meta u cl = Some m -> forall xtv Q objs W rest,
-           prun (mk_pstate (NElement (mk_enode m attrs ns (length objs) false xtv None [] []) :: Q) objs W) (inner ++ rest)
+           prun (mk_pstate (NElement (mk_enode m attrs ns (length objs) false xtv (xn_of nk) [] []) :: Q) objs W) (inner ++ rest)
            = prun (mk_pstate Q (objs ++ [(Some (elem_name qn cl), o)]) W) rest.
 
   Lemma reads_content_elems ns ekids text kes :
@@ -484,11 +510,13 @@ Section Main.
     Hypothesis Hfm : forall av, m_any_attributes m = [av] -> fits_map ok m av (field_of fs av) = true.
     Hypothesis Hmaps : ord = true \/ m_any_attributes m = [].
     Hypothesis Hxfree : xsi_val xt0 <> None -> find_any_attributes m XSI_TYPE = None.
+    Variable nk0 : bool.              (* the element keeps xsi:nil="true" *)
+    Hypothesis Hnk0 : nk0 = true -> m_nillable m = true /\ find_any_attributes m XSI_NIL = None.
 
     Let F (var : xvar) : value := field_of fs var.
     Let avars := get_attribute_vars m.
     Let eats := flat_map (fun var => e_attr var (F var)) avars.
-    Let eatsx := eats ++ xsi_attr_e xt0.
+    Let eatsx := eats ++ xsi_attr_e xt0 ++ nil_attr_k nk0.
     (* the attributes bound to fields: everything but xsi:type *)
     Definition decl (attrs : list (qname * str)) : list (qname * str) :=
       filter (fun qs => negb (str_eqb (fst qs) XSI_TYPE)) attrs.
@@ -560,7 +588,22 @@ Section Main.
     Qed.
 
     (* the names in the event: those of the emitted attributes, and xsi:type *)
-    Definition xsi_name : list qname := match xsi_val xt0 with Some _ => [XSI_TYPE] | None => [] end.
+    Definition xsi_name : list qname :=
+      match xsi_val xt0 with Some _ => [XSI_TYPE] | None => [] end ++ (if nk0 then [XSI_NIL] else []).
+    Lemma xsi_name_in q : In q xsi_name -> (q = XSI_TYPE /\ xsi_val xt0 <> None) \/ (q = XSI_NIL /\ nk0 = true).
+    Proof.
+      unfold xsi_name. intros H. apply in_app_or in H as [H|H].
+      - destruct (xsi_val xt0); [|destruct H]. destruct H as [<-|[]]. left. split; [reflexivity|discriminate].
+      - destruct nk0; [|destruct H]. destruct H as [<-|[]]. right. split; reflexivity.
+    Qed.
+    Lemma xsi_nil_not_attr : assoc XSI_NIL (m_attributes m) = None.
+    Proof.
+      destruct (wf_class_inv m Hwc) as [F1 F2 F3 F4 F5 F6 F7 F8 F9 F10 F11 F12 F13].
+      apply assoc_none. intros Hi. apply in_map_iff in Hi as [[q var] [Eq Hin]]. cbn [fst] in Eq. subst q.
+      rewrite forallb_forall in F9. specialize (F9 _ Hin). cbn [fst snd] in F9. apply andb_true_iff in F9 as [Hq Hw].
+      apply str_eqb_eq in Hq. destruct (wf_attr_inv var Hw) as [_ [_ [_ [_ [Hr _]]]]].
+      unfold reserved_name in Hr. rewrite Hq, str_eqb_refl in Hr. discriminate Hr.
+    Qed.
 
     Lemma xsi_attr_e_val : xsi_attr_e xt0 = match xsi_val xt0 with
                                             | Some q => [(Bind.split_qname XSI_TYPE, [AQName (Bind.split_qname q)])]
@@ -650,7 +693,9 @@ Section Main.
           rewrite (vnames_split var (Hi var (or_introl eq_refl))), IH; [reflexivity|].
           intros x Hx. apply Hi. right; exact Hx. }
         apply H. apply incl_refl.
-      - rewrite xsi_attr_e_val. unfold xsi_name. destruct (xsi_val xt0); reflexivity.
+      - unfold xsi_name. rewrite map_app. f_equal.
+        + rewrite xsi_attr_e_val. destruct (xsi_val xt0); reflexivity.
+        + unfold nil_attr_k. destruct nk0; reflexivity.
     Qed.
 
     Lemma enames_nodup : NoDup enames.
@@ -692,12 +737,17 @@ Section Main.
         - intros q Hq. apply Hn2. eapply Permutation_in; [exact Hperm|exact Hq]. }
       destruct Hav as [Hn1 Hn2].
       unfold enames. apply NoDup_app_intro; [exact Hn1| |].
-      - unfold xsi_name. destruct (xsi_val xt0); [constructor; [intros []|constructor]|constructor].
-      - intros q Hq1 Hq2. unfold xsi_name in Hq2. destruct (xsi_val xt0); [|destruct Hq2]. destruct Hq2 as [<-|[]].
+      - unfold xsi_name. destruct (xsi_val xt0), nk0; cbn [app].
+        + constructor; [intros [E|[]]; vm_compute in E; discriminate E|constructor; [intros []|constructor]].
+        + constructor; [intros []|constructor].
+        + constructor; [intros []|constructor].
+        + constructor.
+      - intros q Hq1 Hq2. apply xsi_name_in in Hq2.
         destruct (Hn2 _ Hq1) as [Hq|Hq].
         + apply in_map_iff in Hq as [kv [Ek Hkv]]. destruct (Hmf kv Hkv) as [_ [_ [Hr _]]].
-          unfold reserved_name in Hr. rewrite Ek, str_eqb_refl, orb_true_r in Hr. discriminate Hr.
-        + destruct (assoc_some_in _ _ Hq) as [v0 Hv0]. rewrite xsi_not_attr in Hv0. discriminate Hv0.
+          unfold reserved_name in Hr. destruct Hq2 as [[-> _]|[-> _]]; rewrite Ek, str_eqb_refl in Hr; [rewrite orb_true_r in Hr|]; discriminate Hr.
+        + destruct (assoc_some_in _ _ Hq) as [v0 Hv0].
+          destruct Hq2 as [[-> _]|[-> _]]; [rewrite xsi_not_attr in Hv0|rewrite xsi_nil_not_attr in Hv0]; discriminate Hv0.
     Qed.
 
     (* every attribute of the event comes from one entry of the expected attributes *)
@@ -742,18 +792,22 @@ Section Main.
       (forall q s, In (q, s) attrs ->
          (q = XSI_TYPE /\ exists xq, xsi_val xt0 = Some xq /\ resolve_qname ns s = Some (Bind.split_qname xq))
          \/ (q <> XSI_TYPE /\ carried ns q s)
-         \/ (q <> XSI_TYPE /\ mapped q s))
+         \/ (q <> XSI_TYPE /\ mapped q s)
+         \/ (q = XSI_NIL /\ nk0 = true /\ s = EventGen.TRUE_STR))
       /\ (forall var, declared var -> e_attr var (F var) <> [] -> exists s, In (v_qname var, s) attrs)
       /\ NoDup (map fst attrs)
       /\ (xsi_val xt0 = None -> ~ In XSI_TYPE (map fst attrs))
-      /\ (forall xq, xsi_val xt0 = Some xq -> exists s, In (XSI_TYPE, s) attrs /\ resolve_qname ns s = Some (Bind.split_qname xq)).
+      /\ (forall xq, xsi_val xt0 = Some xq -> exists s, In (XSI_TYPE, s) attrs /\ resolve_qname ns s = Some (Bind.split_qname xq))
+      /\ (nk0 = true -> In (XSI_NIL, EventGen.TRUE_STR) attrs)
+      /\ (nk0 = false -> ~ In XSI_NIL (map fst attrs)).
     Proof.
       intros Hr. destruct (attrs_from_eats ns attrs Hr) as [Hnd [Hfrom [Hall _]]].
       destruct mapval_facts as [_ Hmf].
       assert (Hcls : forall q s, In (q, s) attrs ->
                 (q = XSI_TYPE /\ exists xq, xsi_val xt0 = Some xq /\ resolve_qname ns s = Some (Bind.split_qname xq))
                 \/ (q <> XSI_TYPE /\ carried ns q s)
-                \/ (q <> XSI_TYPE /\ mapped q s)).
+                \/ (q <> XSI_TYPE /\ mapped q s)
+                \/ (q = XSI_NIL /\ nk0 = true /\ s = EventGen.TRUE_STR)).
       { intros q s Hqs. destruct (Hfrom q s Hqs) as [ea [Hea [Eq Hv]]].
         unfold eatsx in Hea. apply in_app_or in Hea as [Hea|Hea].
         - destruct (eats_cases ea Hea) as [[var [t [[Hw Hina] [-> [Ht [Hs Htk]]]]]]|[kv [Hkv ->]]]; cbn [fst snd] in *; rewrite clark_split in Eq; subst q.
@@ -761,13 +815,18 @@ Section Main.
             * intros Ex. destruct (wf_attr_inv var Hw) as [_ [_ [_ [_ [Hr' _]]]]].
               unfold reserved_name in Hr'. rewrite Ex, str_eqb_refl, orb_true_r in Hr'. discriminate Hr'.
             * exists var, t. repeat split; try assumption. apply (atoms_read_vtext c u ok t _ _ ns s Hs Hv).
-          + right. right. destruct (Hmf kv Hkv) as [_ [_ [Hres _]]]. split.
+          + right. right. left. destruct (Hmf kv Hkv) as [_ [_ [Hres _]]]. split.
             * intros Ex. unfold reserved_name in Hres. rewrite Ex, str_eqb_refl, orb_true_r in Hres. discriminate Hres.
             * cbn [atoms_read atoms_text] in Hv. unfold mapped. assert (Es : s = snd kv) by (cbn in Hv; inversion Hv; reflexivity).
               rewrite Es. destruct kv; exact Hkv.
-        - left. rewrite xsi_attr_e_val in Hea. destruct (xsi_val xt0) as [xq|] eqn:Ex; [|destruct Hea]. destruct Hea as [<-|[]].
-          cbn [fst snd atoms_read] in *. rewrite clark_split in Eq. split; [exact Eq|]. exists xq. split; [reflexivity|exact Hv]. }
-      split; [exact Hcls|]. split; [|split; [exact Hnd|split]].
+        - apply in_app_or in Hea as [Hea|Hea].
+          + left. rewrite xsi_attr_e_val in Hea. destruct (xsi_val xt0) as [xq|] eqn:Ex; [|destruct Hea]. destruct Hea as [<-|[]].
+            cbn [fst snd atoms_read] in *. rewrite clark_split in Eq. split; [exact Eq|]. exists xq. split; [reflexivity|exact Hv].
+          + right. right. right. unfold nil_attr_k in Hea. destruct nk0; [|destruct Hea]. destruct Hea as [<-|[]].
+            cbn [fst snd atoms_read] in *. rewrite clark_split in Eq. split; [exact Eq|]. split; [reflexivity|].
+            cbn in Hv. inversion Hv. reflexivity. }
+      assert (Hnt : XSI_NIL <> XSI_TYPE) by (vm_compute; discriminate).
+      split; [exact Hcls|]. split; [|split; [exact Hnd|split; [|split; [|split]]]].
       - intros var [Hw Hina] Hne.
         destruct (attr_cases var (F var) Hw (Hfa _ Hina)) as [[E _]|[t [E _]]]; [congruence|].
         destruct (Hall (Bind.split_qname (v_qname var), e_atoms (v_format var) (F var))) as [v [_ Hi]].
@@ -775,10 +834,18 @@ Section Main.
           split; [apply declared_in_avars; split; assumption|]. rewrite E. left; reflexivity. }
         cbn [fst] in Hi. rewrite clark_split in Hi. exists v. exact Hi.
       - intros Hx Hi. apply in_map_iff in Hi as [[q s] [Eq Hqs]]. cbn [fst] in Eq. subst q.
-        destruct (Hcls _ _ Hqs) as [[_ [xq [Ex _]]]|[[Hn _]|[Hn _]]]; [congruence|apply Hn; reflexivity|apply Hn; reflexivity].
+        destruct (Hcls _ _ Hqs) as [[_ [xq [Ex _]]]|[[Hn _]|[[Hn _]|[Hn _]]]]; [congruence|apply Hn; reflexivity|apply Hn; reflexivity|].
+        apply Hnt. symmetry. exact Hn.
       - intros xq Hx. destruct (Hall (Bind.split_qname XSI_TYPE, [AQName (Bind.split_qname xq)])) as [v [Hv Hinv]].
-        { unfold eatsx. apply in_or_app. right. rewrite xsi_attr_e_val, Hx. left; reflexivity. }
+        { unfold eatsx. apply in_or_app. right. apply in_or_app. left. rewrite xsi_attr_e_val, Hx. left; reflexivity. }
         cbn [fst snd atoms_read] in *. rewrite clark_split in Hinv. exists v. split; assumption.
+      - intros Hk. destruct (Hall (Bind.split_qname XSI_NIL, [AText EventGen.TRUE_STR])) as [v [Hv Hinv]].
+        { unfold eatsx. apply in_or_app. right. apply in_or_app. right. unfold nil_attr_k. rewrite Hk. left; reflexivity. }
+        cbn [fst snd atoms_read] in *. rewrite clark_split in Hinv. cbn in Hv. inversion Hv; subst v. exact Hinv.
+      - intros Hk Hi. apply in_map_iff in Hi as [[q s] [Eq Hqs]]. cbn [fst] in Eq. subst q.
+        destruct (Hcls _ _ Hqs) as [[E _]|[[_ Hc]|[[_ Hm]|[_ [E _]]]]]; [exact (Hnt E)| | |congruence].
+        + destruct Hc as [var [t [Hin _]]]. pose proof xsi_nil_not_attr as Hxa. rewrite (assoc_attr _ _ Hin) in Hxa. discriminate Hxa.
+        + destruct (Hmf _ Hm) as [_ [_ [Hres _]]]. cbn [fst] in Hres. unfold reserved_name in Hres. rewrite str_eqb_refl in Hres. discriminate Hres.
     Qed.
 
     Lemma pget_app_other k k' v (p : params) : k <> k' -> pget k (p ++ [(k', v)]) = pget k p.
@@ -874,7 +941,9 @@ Section Main.
         + intros x Hx. apply existsb_exists. exists x. split; [exact Hx|apply str_eqb_refl].
         + intros x Hx. apply (Hdisj _ _ Hne). right; exact Hx.
       - intros [q s] Hx. apply filter_In in Hx as [Hqs Him]. apply ismap_in in Him.
-        destruct (Hcls q s Hqs) as [[Eq _]|[[_ Hc]|[_ Hm]]]; [| |exact Hm].
+        destruct (Hcls q s Hqs) as [[Eq _]|[[_ Hc]|[[_ Hm]|[Eq _]]]]; [| |exact Hm|].
+        3:{ exfalso. apply in_map_iff in Him as [kv [Ek Hkv]]. destruct (Hmf kv Hkv) as [_ [_ [Hres _]]].
+            unfold reserved_name in Hres. rewrite Ek, Eq, str_eqb_refl in Hres. discriminate Hres. }
         + exfalso. apply in_map_iff in Him as [kv [Ek Hkv]]. destruct (Hmf kv Hkv) as [_ [_ [Hres _]]].
           unfold reserved_name in Hres. rewrite Ek, Eq, str_eqb_refl, orb_true_r in Hres. discriminate Hres.
         + exfalso. destruct Hc as [var [t [Hin _]]]. apply in_map_iff in Him as [kv [Ek Hkv]].
@@ -912,7 +981,8 @@ Section Main.
     Proof. intros E. unfold find_any_attributes, find_by_namespace. rewrite E. reflexivity. Qed.
 
     Lemma bind_attrs_loop_ok en : en_meta en = m -> forall attrs p done,
-      (forall q s, In (q, s) attrs -> (q = XSI_TYPE /\ xsi_val xt0 <> None) \/ carried (en_ns en) q s \/ mapped q s) ->
+      (forall q s, In (q, s) attrs -> (q = XSI_TYPE /\ xsi_val xt0 <> None) \/ carried (en_ns en) q s \/ mapped q s
+                                      \/ (q = XSI_NIL /\ nk0 = true)) ->
       NoDup (map fst attrs) ->
       mapval = done ++ filter ismap attrs ->
       PInv p done ->
@@ -927,7 +997,23 @@ Section Main.
       - cbn [filter] in Hmv. rewrite app_nil_r in Hmv. subst done. exists p. cbn [bind_attrs_loop].
         split; [reflexivity|]. split; [exact Hinv|]. split; [auto|intros q s var []].
       - cbn [map fst] in Hnd. inversion Hnd as [|? ? Hq Hnd']; subst.
-        destruct (Hc q s (or_introl eq_refl)) as [[-> Hx]|[Hcar|Hmp]].
+        destruct (Hc q s (or_introl eq_refl)) as [[-> Hx]|[Hcar|[Hmp|[-> Hk]]]].
+        4:{ (* xsi:nil: no field; an attribute map of this class does not capture it *)
+            destruct (Hnk0 Hk) as [_ Hnf].
+            cbn [bind_attrs_loop]. rewrite Hen. unfold find_attribute. rewrite xsi_nil_not_attr.
+            rewrite Hnf.
+            assert (Eu : ostr_eqb (target_uri XSI_NIL) (Some XSI_NS) = true) by (vm_compute; reflexivity).
+            rewrite Eu. cbn [negb]. rewrite andb_false_r.
+            assert (Ef : filter ismap ((XSI_NIL, s) :: attrs) = filter ismap attrs).
+            { cbn [filter]. destruct (ismap (XSI_NIL, s)) eqn:Ei; [|reflexivity]. exfalso.
+              apply ismap_in in Ei. apply in_map_iff in Ei as [kv [Ek Hkv]]. destruct (Hmf kv Hkv) as [_ [_ [Hres _]]].
+              unfold reserved_name in Hres. rewrite Ek, str_eqb_refl in Hres. discriminate Hres. }
+            rewrite Ef in Hmv.
+            destruct (IH p done) as [p' [E [Hi' [Hk' Hd']]]]; [intros q' s' H'; apply Hc; right; exact H'|exact Hnd'|exact Hmv|exact Hinv| |].
+            { intros q' s' var H1 H2. apply (Hfresh q' s' var); [right; exact H1|exact H2]. }
+            exists p'. split; [exact E|]. split; [exact Hi'|]. split; [exact Hk'|].
+            intros q' s' var [E'|H1] H2; [|apply (Hd' q' s' var H1 H2)].
+            inversion E'; subst. exfalso. pose proof xsi_nil_not_attr as Hxa. rewrite (assoc_attr _ _ H2) in Hxa. discriminate Hxa. }
         + (* xsi:type: no field; an attribute map of this class does not capture it *)
           cbn [bind_attrs_loop]. rewrite Hen. unfold find_attribute. rewrite xsi_not_attr.
           rewrite (Hxfree Hx). rewrite xsi_type_uri. cbn [negb]. rewrite andb_false_r.
@@ -1066,7 +1152,8 @@ Section Main.
       intros Hen Hat Hr. destruct (reads_attrs_carried (en_ns en) attrs Hr) as [Hc [Hem [Hnd [Hnox _]]]].
       pose proof (map_part (en_ns en) attrs Hr) as Hmp.
       destruct (bind_attrs_loop_ok en Hen attrs [] []) as [pa [E [[Hn1 [Hn2 Hn3]] [_ Hd]]]].
-      - intros q s Hqs. destruct (Hc q s Hqs) as [[Eq [xq [Hx _]]]|[[_ H]|[_ H]]]; [left; split; [exact Eq|congruence]|right; left; exact H|right; right; exact H].
+      - intros q s Hqs. destruct (Hc q s Hqs) as [[Eq [xq [Hx _]]]|[[_ H]|[[_ H]|[Eq [Hk _]]]]];
+          [left; split; [exact Eq|congruence]|right; left; exact H|right; right; left; exact H|right; right; right; split; assumption].
       - exact Hnd.
       - cbn [app]. symmetry. exact Hmp.
       - split; [constructor|]. split; [intros k pv []|]. intros av _. reflexivity.
@@ -1518,7 +1605,7 @@ Section Main.
       - destruct (fits_item_class c u ok _ var k y Hty Hok) as [cl' [fs' [-> [[-> Hfk]|[_ Hfk]]]]];
           cbn [RoundtripGen.e_item]; (destruct n as [|n']; [discriminate Hfk|]);
           destruct (fits_inv c u ok py_isspace n' _ _ Hfk) as [fs'' [mk [E [Hmk _]]]]; inversion E; subst;
-          cbn [RoundtripGen.eobj]; rewrite Hmk; cbn [add_xsi_e]; eauto.
+          cbn [RoundtripGen.eobj]; rewrite Hmk; cbn [add_xsi_e add_nil_e]; eauto.
       - destruct (fits_item_simple c u ok _ var t y Hty Hst Hok) as [p [-> _]].
         cbn [RoundtripGen.e_item]. unfold RoundtripGen.e_prim. eauto.
       - destruct (fits_item_qname c u ok _ var y Hty Hok) as [q1 [-> _]].
@@ -1535,7 +1622,14 @@ Section Main.
     Variable xtv0 : option qname.     (* en_xsi_type: only read by a derived factory, which these nodes do not have *)
 
     Definition enW (asg : list N) (wr : list (qname * list qname)) : enode :=
-      mk_enode m attrs0 ns0 pos0 false xtv0 None asg wr.
+      mk_enode m attrs0 ns0 pos0 false xtv0 (xn_of nk0) asg wr.
+    Lemma xsi_nil_enW asg wr : xsi_nil_true (enW asg wr) = nk0.
+    Proof. apply xn_true. Qed.
+    Lemma nil_go : negb nk0 || m_nillable m = true.
+    Proof.
+      destruct (Bool.bool_dec nk0 true) as [H|H]; [rewrite (proj1 (Hnk0 H)); apply orb_true_r|].
+      apply Bool.not_true_is_false in H. rewrite H. reflexivity.
+    Qed.
     Definition asg_after (var : xvar) (asg : list N) : list N :=
       match v_factory var with None => asg ++ [v_index var] | Some _ => asg end.
     (* the queue entries above the class element: nothing, or the open wrapper element *)
@@ -1618,15 +1712,15 @@ Section Main.
     Lemma build_node_class var k mk attrs ns pos asg wr :
       is_elem_var var -> v_clazz var = Some k -> v_types var = [TClass k] ->
       u_meta u k = Some mk ->
-      Parser.xsi_type_of c attrs ns = ROk None -> assoc XSI_NIL attrs = None ->
+      Parser.xsi_type_of c attrs ns = ROk None -> forall nk, xsi_nil_of attrs = xn_of nk -> (nk = true -> m_nillable mk = true) ->
       build_node c u (enW asg wr) (v_qname var) var attrs ns pos
-      = ROk (Some (NElement (mk_enode mk attrs ns pos false None None [] []))).
+      = ROk (Some (NElement (mk_enode mk attrs ns pos false None (xn_of nk) [] []))).
     Proof.
-      intros Hv Hcl Hty Hmk Hxt Hxn. pose proof Hv as [Hw _].
+      intros Hv Hcl Hty Hmk Hxt nk Hxn Hn. pose proof Hv as [Hw _].
       unfold build_node, v_is_clazz_union. rewrite Hcl, Hty. change (1 <? N.of_nat (length [TClass k])) with false. cbn iota.
-      rewrite Hxt. unfold xsi_nil_of. rewrite Hxn. cbn [truthy_str rbind].
+      rewrite Hxt, Hxn. cbn [truthy_str rbind].
       unfold build_element_node, fetch, get_meta. rewrite Hmk. cbn [rbind truthy_str].
-      reflexivity.
+      destruct nk; [rewrite (Hn eq_refl), orb_true_r|]; reflexivity.
     Qed.
 
     (* xsi:type names a strict subclass of the declared class: its metadata, no derived wrapper *)
@@ -1635,13 +1729,13 @@ Section Main.
       u_meta u kd = Some mkd -> u_meta u k = Some mk -> m_clazz mk = k ->
       t <> [] -> m_target_qname mkd <> Some t -> sub_lookup u kd t = Some k -> c_from_qname c t = None ->
       is_subclass u k kd = true ->
-      Parser.xsi_type_of c attrs ns = ROk (Some t) -> assoc XSI_NIL attrs = None ->
+      Parser.xsi_type_of c attrs ns = ROk (Some t) -> forall nk, xsi_nil_of attrs = xn_of nk -> (nk = true -> m_nillable mk = true) ->
       build_node c u (enW asg wr) (v_qname var) var attrs ns pos
-      = ROk (Some (NElement (mk_enode mk attrs ns pos false (Some t) None [] []))).
+      = ROk (Some (NElement (mk_enode mk attrs ns pos false (Some t) (xn_of nk) [] []))).
     Proof.
-      intros Hv Hcl Hty Hmkd Hmk Hmc' Hne Htg Hsl Hfq Hsub Hxt Hxn. pose proof Hv as [Hw _].
+      intros Hv Hcl Hty Hmkd Hmk Hmc' Hne Htg Hsl Hfq Hsub Hxt nk Hxn Hn. pose proof Hv as [Hw _].
       unfold build_node, v_is_clazz_union. rewrite Hcl, Hty. change (1 <? N.of_nat (length [TClass kd])) with false. cbn iota.
-      rewrite Hxt. unfold xsi_nil_of. rewrite Hxn. cbn [truthy_str rbind].
+      rewrite Hxt, Hxn. cbn [truthy_str rbind].
       unfold build_element_node, fetch, get_meta. rewrite Hmkd. cbn [rbind].
       destruct t as [|ch t']; [congruence|]. cbn [truthy_str].
       match goal with |- context [ostr_eqb ?a ?b] => destruct (ostr_eqb a b) eqn:Eo end.
@@ -1650,7 +1744,7 @@ Section Main.
       assert (Ef : find_subclass c u kd (ch :: t') = Some k).
       { unfold find_subclass, ctx_find_types. rewrite Hfq. exact Hsl. }
       rewrite Ef, Hmk. cbn [rbind is_some negb andb].
-      rewrite Hmc', Hsub. reflexivity.
+      rewrite Hmc', Hsub. destruct nk; [rewrite (Hn eq_refl), orb_true_r|]; reflexivity.
     Qed.
 
     Lemma reads_prim0 var y t a :
@@ -1752,15 +1846,17 @@ Section Main.
         { unfold xsi_for. rewrite Hty. cbn [existsb ptype_eqb]. rewrite N.eqb_refl. reflexivity. }
         rewrite Ex in Hr.
         assert (Hwk : wfr k) by (apply (Hnest _ var k Hin (or_introl eq_refl) Hcl)).
-        destruct (IH k (VObj k fs') (Some (v_qname var)) None Hwk Hfk) with (pevs := a) as [attrs [ns [inner [-> [Hxt [Hxn Hrun]]]]]];
-          [intros q Hq; discriminate Hq|intros Hx; exfalso; apply Hx; reflexivity|exact Hr|].
+        pose proof (nil_ok_item var k k fs' n Hty Hfy Hfk) as Hnko.
+        destruct (IH k (VObj k fs') (Some (v_qname var)) None (nil_kept u (v_nillable var || cnil u (VObj k fs')) (VObj k fs')) Hwk Hfk) with (pevs := a) as [attrs [ns [inner [-> [Hxt [Hxn Hrun]]]]]];
+          [intros q Hq; discriminate Hq|intros Hx; exfalso; apply Hx; reflexivity|exact Hnko|exact Hr|].
         rewrite Hname in *.
         destruct (wfr_inv u k Hwk) as [mk [Hmk [_ [Hwck _]]]].
         destruct (wf_class_inv mk Hwck) as [G1 G2 G3 G4 G5 G6 G7 G8 G9 G10 G11 G12 G13].
         cbn [app].
         rewrite (run_step cfg c u replay root _ _ _ _
                    (start_child var attrs ns asg wr wo Q objs W _ Hv Hasg Hag
-                      (build_node_class var k mk attrs ns (length objs) asg wr Hv Hcl Hty Hmk Hxt Hxn))).
+                      (build_node_class var k mk attrs ns (length objs) asg wr Hv Hcl Hty Hmk Hxt _ Hxn
+                         (fun H => proj1 (proj2 (Hnko H) mk Hmk))))).
         apply (Hrun mk Hmk).
       - (* an instance of a strict subclass, announced by xsi:type *)
         cbn [RoundtripGen.e_item] in Hr.
@@ -1774,9 +1870,10 @@ Section Main.
         assert (Hxv : xsi_val (Some t) = Some t) by (destruct t; [congruence|reflexivity]).
         assert (Hwk : wfr cl').
         { apply (wfr_sub u cl m _ var k cl' Hwfcl Hmcl Hin (or_introl eq_refl) Hcl); [congruence|exact Hne|exact Hsub]. }
-        destruct (IH cl' (VObj cl' fs') (Some (v_qname var)) (Some t) Hwk Hfk) with (pevs := a) as [attrs [ns [inner [-> [Hxt [Hxn Hrun]]]]]];
+        pose proof (nil_ok_item var k cl' fs' n Hty Hfy Hfk) as Hnko.
+        destruct (IH cl' (VObj cl' fs') (Some (v_qname var)) (Some t) (nil_kept u (v_nillable var || cnil u (VObj cl' fs')) (VObj cl' fs')) Hwk Hfk) with (pevs := a) as [attrs [ns [inner [-> [Hxt [Hxn Hrun]]]]]];
           [intros q Hq; rewrite Hxv in Hq; inversion Hq; subst q; split; assumption
-          |intros _ mk0 Hmk0; apply (derived_ok_noxsi c u ok var k cl' mk0 Hdok Hmk0)|exact Hr|].
+          |intros _ mk0 Hmk0; apply (derived_ok_noxsi c u ok var k cl' mk0 Hdok Hmk0)|exact Hnko|exact Hr|].
         rewrite Hname in *. rewrite Hxv in Hxt.
         destruct (wfr_inv u cl' Hwk) as [mk' [Hmk' [Hmc' [Hwck _]]]]. rewrite Hmk in Hmk'. inversion Hmk'; subst mk'. clear Hmk'.
         destruct (wf_class_inv mk Hwck) as [G1 G2 G3 G4 G5 G6 G7 G8 G9 G10 G11 G12 G13].
@@ -1784,7 +1881,7 @@ Section Main.
         rewrite (run_step cfg c u replay root _ _ _ _
                    (start_child var attrs ns asg wr wo Q objs W _ Hv Hasg Hag
                       (build_node_derived var k cl' attrs ns (length objs) asg wr t mk mkd Hv Hcl Hty Hmkd Hmk Hmc'
-                         Htne Htg Hsl Hfq Hsub Hxt Hxn))).
+                         Htne Htg Hsl Hfq Hsub Hxt _ Hxn (fun H => proj1 (proj2 (Hnko H) mk Hmk))))).
         apply (Hrun mk Hmk).
     Qed.
 
@@ -2657,7 +2754,7 @@ Section Main.
       assert (Hsel : forall var, In var evars -> sel var ps = occ var (F var)).
       { intros var Hv. apply (ps_sel _ _ _ _ pairs_ok var Hv). }
       cbn [Parser.step pend st_queue st_objects st_warn]. unfold element_bind.
-      change (xsi_nil_true (enW asg (flat_map wentryp ps))) with false. cbn [negb orb].
+      rewrite xsi_nil_enW. change (en_meta (enW asg (flat_map wentryp ps))) with m at 1. rewrite nil_go.
       rewrite Hba. cbn [rbind fst snd].
       assert (Ebc : bind_content cfg c (enW asg (flat_map wentryp ps)) pa text tail (objs ++ flat_map taggedp ps)
                     = ROk (p', objs, [], false)).
@@ -2751,11 +2848,11 @@ Section Main.
     Lemma end_simple tv asg wr q tail Q objs W :
       m_text m = Some tv -> fits_text tv (F tv) = true ->
       pos0 = length objs -> reads_attrs ns0 eatsx attrs0 -> blank_o tail = true ->
-      (forall q1, F tv <> VP (PQName q1)) ->
+      (forall q1, F tv <> VP (PQName q1)) -> (nk0 = true -> F tv = VNone) ->
       pstep (mk_pstate (NElement (enW asg wr) :: Q) objs W) (PEnd q (text_of tv) tail)
       = ROk (mk_pstate Q (objs ++ [(Some q, VObj cl fs)]) W).
     Proof.
-      intros Htx Hft Hpos Hra Htl Hnq.
+      intros Htx Hft Hpos Hra Htl Hnq Hnkt.
       destruct (wf_class_inv m Hwc) as [F1 F2 F3 F4 F5 F6 F7 F8 F9 F10 F11 F12 F13].
       rewrite Htx in F11. destruct F11 as [Hwt Hnoe].
       assert (Hevars : evars = [tv]).
@@ -2772,13 +2869,34 @@ Section Main.
           destruct (var_common_inv var Hc) as [Hi _]. exact Hi.
         - rewrite Hevars in He. destruct He as [<-|[]]. exact Hinit. }
       cbn [Parser.step pend st_queue st_objects st_warn]. unfold element_bind.
-      change (xsi_nil_true (enW asg wr)) with false. cbn [negb orb].
+      rewrite xsi_nil_enW. change (en_meta (enW asg wr)) with m at 1. rewrite nil_go.
       rewrite Hba. cbn [rbind fst snd].
       unfold bind_content. change (en_meta (enW asg wr)) with m. unfold find_any_wildcard. rewrite (text_no_wild m tv Hwc Htx). cbn [hd_error].
       change (en_position (enW asg wr)) with pos0. change (en_wrappers (enW asg wr)) with wr.
       rewrite Hpos, skipn_all, firstn_all. cbn [bind_objects_loop rbind fst snd].
       unfold bind_text. change (en_meta (enW asg wr)) with m. rewrite Htx.
-      change (xsi_nil_true (enW asg wr)) with false. cbn [negb andb].
+      rewrite !xsi_nil_enW.
+      destruct (Bool.bool_dec nk0 true) as [Hnk|Hnk].
+      { (* xsi:nil kept: the Text field is set to None explicitly *)
+        pose proof (Hnkt Hnk) as Ex. unfold text_of. rewrite Ex, Hnk.
+        cbn [is_some negb andb truthy_str rbind]. rewrite Hinit. cbn [rbind app].
+        rewrite (pset_fresh _ _ _ Hfresh).
+        replace (PV VNone) with (PV (F tv)) by (rewrite Ex; reflexivity).
+        rewrite (class_factory_ok (pa ++ [(v_name tv, PV (F tv))])).
+        * cbn [rbind]. change (en_derived (enW asg wr)) with false. cbn iota.
+          unfold append_tail. rewrite (normalize_blank tail Htl).
+          unfold finish_end. cbn [rbind fst snd st_warn]. rewrite app_nil_r. reflexivity.
+        * rewrite map_app. apply NoDup_app_intro; [exact Hnd|constructor; [intros []|constructor]|].
+          intros k Hk1 [<-|[]]. exact (Hfresh Hk1).
+        * intros k pv Hk0. apply in_app_or in Hk0 as [Hk0|[Hk0|[]]].
+          -- destruct (Hin _ _ Hk0) as [va [Hva [En Hpv]]]. exists va. split; [apply avar_all; exact Hva|].
+             split; [exact En|]. rewrite Hpv. reflexivity.
+          -- inversion Hk0. exists tv. split; [apply evar_all; exact Htv|]. split; reflexivity.
+        * intros var Hv Hnot. rewrite map_app in Hnot. destruct (allvars_split var Hv) as [Ha|He].
+          -- apply (Habs var Ha). intros Hi. apply Hnot. apply in_or_app. left; exact Hi.
+          -- rewrite Hevars in He. destruct He as [<-|[]]. exfalso. apply Hnot. apply in_or_app. right. left. reflexivity.
+        * exact Hinits. }
+      apply Bool.not_true_is_false in Hnk. rewrite Hnk. cbn [negb andb].
       assert (Hfin : forall p1,
                 class_factory cfg m (evaluate p1) = ROk (VObj cl fs) ->
                 (do obj <- class_factory cfg m (evaluate p1);
@@ -2837,11 +2955,14 @@ Section Main.
     Lemma end_simple_q tv asg wr q q1 s tail Q objs W :
       m_text m = Some tv -> fits_text tv (F tv) = true ->
       pos0 = length objs -> reads_attrs ns0 eatsx attrs0 -> blank_o tail = true ->
-      F tv = VP (PQName q1) -> s <> [] -> resolve_qname ns0 s = Some (Bind.split_qname q1) ->
+      F tv = VP (PQName q1) -> s <> [] -> resolve_qname ns0 s = Some (Bind.split_qname q1) -> (nk0 = true -> F tv = VNone) ->
       pstep (mk_pstate (NElement (enW asg wr) :: Q) objs W) (PEnd q (Some s) tail)
       = ROk (mk_pstate Q (objs ++ [(Some q, VObj cl fs)]) W).
     Proof.
-      intros Htx Hft Hpos Hra Htl Eq Hne Hres.
+      intros Htx Hft Hpos Hra Htl Eq Hne Hres Hnkt.
+      assert (Hnkf : nk0 = false).
+      { destruct (Bool.bool_dec nk0 true) as [Hnk|Hnk]; [|apply Bool.not_true_is_false; exact Hnk].
+        rewrite (Hnkt Hnk) in Eq. discriminate Eq. }
       destruct (wf_class_inv m Hwc) as [F1 F2 F3 F4 F5 F6 F7 F8 F9 F10 F11 F12 F13].
       rewrite Htx in F11. destruct F11 as [Hwt Hnoe].
       assert (Hevars : evars = [tv]).
@@ -2862,13 +2983,13 @@ Section Main.
       { rewrite Eq in Hs. inversion Hs as [p Hp E|]. rewrite (leaf_nq c u ok t _ q1) in Hp. discriminate Hp. }
       rewrite Eq in Eq2. inversion Eq2; subst q2. clear Eq2.
       cbn [Parser.step pend st_queue st_objects st_warn]. unfold element_bind.
-      change (xsi_nil_true (enW asg wr)) with false. cbn [negb orb].
+      rewrite xsi_nil_enW, Hnkf. cbn [negb orb].
       rewrite Hba. cbn [rbind fst snd].
       unfold bind_content. change (en_meta (enW asg wr)) with m. unfold find_any_wildcard. rewrite (text_no_wild m tv Hwc Htx). cbn [hd_error].
       change (en_position (enW asg wr)) with pos0. change (en_wrappers (enW asg wr)) with wr.
       rewrite Hpos, skipn_all, firstn_all. cbn [bind_objects_loop rbind fst snd].
       unfold bind_text. change (en_meta (enW asg wr)) with m. rewrite Htx.
-      change (xsi_nil_true (enW asg wr)) with false. cbn [negb andb].
+      rewrite !xsi_nil_enW, Hnkf. cbn [negb andb].
       destruct s as [|ch s0]; [congruence|].
       cbn [is_some negb andb truthy_str].
       change (en_ns (enW asg wr)) with ns0.
@@ -2928,11 +3049,15 @@ Section Main.
 
   Lemma obj_parses_step n : obj_parses n -> obj_parses (S n).
   Proof.
-    intros IH cl o qn xt Hwf Hfit Hxq Hxf pevs Hr.
+    intros IH cl o qn xt nk Hwf Hfit Hxq Hxf Hnk pevs Hr.
     destruct (fits_inv c u ok py_isspace n cl o Hfit) as [fs [m [-> [Hm [Hnames [Hfa [Hfe Hft]]]]]]].
     destruct (wfr_inv u cl Hwf) as [m' [Hm' [Hmc [Hwc Hnest]]]]. rewrite Hm in Hm'. inversion Hm'; subst m'. clear Hm'.
-    cbn [RoundtripGen.eobj] in Hr. rewrite Hm in Hr. cbn [add_xsi_e reads_o] in Hr.
+    cbn [RoundtripGen.eobj] in Hr. rewrite Hm in Hr. cbn [add_xsi_e add_nil_e reads_o] in Hr.
     destruct Hr as [attrs [ns [text [tail [kes [Hp [Hra [Htl Hk]]]]]]]].
+    rewrite <- app_assoc in Hra.
+    assert (Hnk0 : nk = true -> m_nillable m = true /\ find_any_attributes m XSI_NIL = None)
+      by (intros H; apply (proj2 (Hnk H) m Hm)).
+    assert (Hse : nk = true -> strict_empty u (VObj cl fs) = true) by (intros H; apply (proj1 (Hnk H))).
     rewrite clark_split in Hp.
     assert (Hq : elem_name qn cl = match qn with Some ((_ :: _) as q) => q | _ => m_qname m end).
     { unfold elem_name. rewrite Hm. reflexivity. }
@@ -2954,14 +3079,11 @@ Section Main.
       unfold nomaps_u in Hno. rewrite forallb_forall in Hno. specialize (Hno (cl, m) (assocN_in _ _ _ Hm)).
       cbn [snd] in Hno. rewrite Hwc in Hno. cbn [negb orb] in Hno. apply andb_true_iff in Hno as [_ Hno].
       destruct (m_wildcards m); [reflexivity|discriminate Hno]. }
-    destruct (reads_attrs_carried fs m Hwc Hfa xt Hxq Hfm Hxfree ns attrs Hra) as [Hcar [_ [Hnda [Hnox Hx]]]].
-    assert (Hnil : assoc XSI_NIL attrs = None).
-    { apply assoc_none. intros Hi. apply in_map_iff in Hi as [[k' s'] [Ek Hks]]. cbn [fst] in Ek. subst k'.
-      destruct (Hcar _ s' Hks) as [[E _]|[[_ [var [t [_ [Hqv [Hw _]]]]]]|[_ Hmp]]]; [exact (xsi_nil_not_type E)| |].
-      - destruct (wf_attr_inv var Hw) as [_ [_ [_ [_ [Hr' _]]]]].
-        unfold reserved_name in Hr'. rewrite Hqv, str_eqb_refl in Hr'. discriminate Hr'.
-      - destruct (mapval_facts fs m Hwc Hfm) as [_ Hmf]. destruct (Hmf _ Hmp) as [_ [_ [Hr' _]]]. cbn [fst] in Hr'.
-        unfold reserved_name in Hr'. rewrite str_eqb_refl in Hr'. discriminate Hr'. }
+    destruct (reads_attrs_carried fs m Hwc Hfa xt Hxq Hfm Hxfree nk Hnk0 ns attrs Hra) as [Hcar [_ [Hnda [Hnox [Hx [Hn1 Hn2]]]]]].
+    assert (Hnil : xsi_nil_of attrs = xn_of nk).
+    { unfold xsi_nil_of. destruct nk.
+      - rewrite (assoc_nodup XSI_NIL attrs _ Hnda (Hn1 eq_refl)). vm_compute. reflexivity.
+      - rewrite (assoc_none XSI_NIL attrs (Hn2 eq_refl)). reflexivity. }
     assert (Hxty : Parser.xsi_type_of c attrs ns = ROk (xsi_val xt)).
     { unfold Parser.xsi_type_of. destruct (xsi_val xt) as [xq|] eqn:Ex.
       - destruct (Hx xq eq_refl) as [s0 [Hi Hres]].
@@ -2989,18 +3111,22 @@ Section Main.
         destruct (field_of fs tv); cbn [flat_map fst snd]; rewrite ?app_nil_r; reflexivity. }
       rewrite Hkf in Hk.
       destruct (wf_text_inv tv Hwt) as [Hkt _].
+      assert (Hnkt : nk = true -> field_of fs tv = VNone).
+      { intros H. pose proof (Hse H) as Hs0. cbn [strict_empty] in Hs0. rewrite Hm, Hevars in Hs0. cbn [forallb] in Hs0.
+        rewrite andb_true_r in Hs0. destruct (field_of fs tv) as [| |tp [|y l]| | | |]; try discriminate Hs0; [reflexivity|].
+        rewrite Hkt in Hs0. destruct (v_wrapper_qname tv); discriminate Hs0. }
       destruct (text_field_shape fs tv Hwt Hft) as [[Ex _]|[[t [Ht [Hs _]]]|[q1 [Ht [Htf [Eq [Hokq Hqok]]]]]]].
       + (* no value *)
         assert (Htext : text = text_of fs tv /\ kes = []).
         { unfold text_of. rewrite Ex in *. unfold RoundtripGen.e_field in Hk. rewrite (wf_text_nonil tv Hwt) in Hk. exact Hk. }
         destruct Htext as [-> ->]. cbn [app]. apply run_step.
-        apply (end_simple cl fs m Hwc Hmc Hnames Hfa xt Hxq Hfm Hmaps Hxfree attrs ns (length objs) xtv tv [] [] (elem_name qn cl) tail Q objs W Htx Hft eq_refl Hra Htl).
+        apply (end_simple cl fs m Hwc Hmc Hnames Hfa xt Hxq Hfm Hmaps Hxfree nk Hnk0 attrs ns (length objs) xtv tv [] [] (elem_name qn cl) tail Q objs W Htx Hft eq_refl Hra Htl); [|exact Hnkt].
         intros q1 E. rewrite Ex in E. discriminate E.
       + (* a leaf or a token list *)
         assert (Htext : text = text_of fs tv /\ kes = []).
         { rewrite (text_of_eq fs tv t Hs). apply (reads_text_content ns (eobj n) tv _ t text kes Hkt (wf_text_nowrap tv Hwt) Hs Hk). }
         destruct Htext as [-> ->]. cbn [app]. apply run_step.
-        apply (end_simple cl fs m Hwc Hmc Hnames Hfa xt Hxq Hfm Hmaps Hxfree attrs ns (length objs) xtv tv [] [] (elem_name qn cl) tail Q objs W Htx Hft eq_refl Hra Htl).
+        apply (end_simple cl fs m Hwc Hmc Hnames Hfa xt Hxq Hfm Hmaps Hxfree nk Hnk0 attrs ns (length objs) xtv tv [] [] (elem_name qn cl) tail Q objs W Htx Hft eq_refl Hra Htl); [|exact Hnkt].
         intros q1 E. rewrite E in Hs. inversion Hs as [p0 Hp0 E'|]. rewrite (leaf_nq c u ok t _ q1) in Hp0. discriminate Hp0.
       + (* a QName *)
         assert (He : e_field (eobj n) tv (field_of fs tv) = [EData [AQName (Bind.split_qname q1)]]).
@@ -3008,8 +3134,8 @@ Section Main.
           rewrite Hkt, (wf_text_nowrap tv Hwt). unfold RoundtripGen.e_data. cbn [RoundtripGen.e_atoms].
           rewrite (qname_nontrivial q1 Hqok). reflexivity. }
         rewrite He in Hk. destruct Hk as [s [Hs [Hne [-> ->]]]]. cbn [atoms_read] in Hs. cbn [app]. apply run_step.
-        apply (end_simple_q cl fs m Hwc Hmc Hnames Hfa xt Hxq Hfm Hmaps Hxfree attrs ns (length objs) xtv tv [] [] (elem_name qn cl) q1 s tail Q objs W
-                 Htx Hft eq_refl Hra Htl Eq Hne Hs).
+        apply (end_simple_q cl fs m Hwc Hmc Hnames Hfa xt Hxq Hfm Hmaps Hxfree nk Hnk0 attrs ns (length objs) xtv tv [] [] (elem_name qn cl) q1 s tail Q objs W
+                 Htx Hft eq_refl Hra Htl Eq Hne Hs Hnkt).
     - (* complex content *)
       assert (Hpf : forall vv, In vv (pairs cl fs m) -> In (fst vv) (get_element_vars m) /\ pair_ok m n vv).
       { intros vv Hvv. apply (pair_facts cl fs m Hwc Hmc Hnames n Hfe Hwf Hm Hfw vv Htx Hvv). }
@@ -3027,12 +3153,12 @@ Section Main.
           [apply Hitems; exact He'|destruct He' as [<-|[]]; eauto|apply Hitems; exact He']. }
       assert (Hkids : reads_kids (flat_map (fun vv => e_field (eobj n) (fst vv) (snd vv)) (pairs cl fs m)) kes)
         by (apply (reads_content_elems ns _ text kes Hkids0 Hk)).
-      destruct (pairs_run cl fs m Hwc Hmc n Hfe IH Hwf Hm Hnest attrs ns (length objs) xtv Hword (pairs cl fs m) kes [] [] Q objs W
+      destruct (pairs_run cl fs m Hwc Hmc nk n Hfe IH Hwf Hm Hnest attrs ns (length objs) xtv Hword (pairs cl fs m) kes [] [] Q objs W
                   (PEnd (elem_name qn cl) text tail :: rest) Htx Hpf
                   (ps_once _ _ _ _ (class_pairs_fits c u ok _ _ cl fs m Hwc Hnames Hfe Hfw))
                   (fun _ _ _ => conj (fun Hi => Hi) (fun Hi => Hi)) Hkids) as [asg' Hrun].
       unfold enW in Hrun. rewrite Hrun. apply run_step. cbn [app].
-      apply (end_complex cl fs m Hwc Hmc Hnames Hfa xt Hxq Hfm Hmaps Hxfree n Hfe Hwf Hm attrs ns (length objs) xtv Hfw asg' (elem_name qn cl) text tail Q objs W Htx eq_refl Hra Htl).
+      apply (end_complex cl fs m Hwc Hmc Hnames Hfa xt Hxq Hfm Hmaps Hxfree nk Hnk0 n Hfe Hwf Hm attrs ns (length objs) xtv Hfw asg' (elem_name qn cl) text tail Q objs W Htx eq_refl Hra Htl).
       (* the text of an element with child elements is white space *)
       clear - Hk Hkids0. destruct (flat_map (fun vv => e_field (eobj n) (fst vv) (snd vv)) (pairs cl fs m)) as [|k1 r]; [destruct Hk as [-> _]; reflexivity|].
       destruct (Hkids0 k1 (or_introl eq_refl)) as [q1 [a1 [kk1 ->]]]. destruct Hk as [Hb _]. exact Hb.
@@ -3041,6 +3167,6 @@ Section Main.
   Theorem all_parse : forall n, obj_parses n.
   Proof.
     induction n as [|n IHn]; [|apply obj_parses_step; exact IHn].
-    intros cl o qn xt _ Hfit. discriminate Hfit.
+    intros cl o qn xt nk _ Hfit. discriminate Hfit.
   Qed.
 End Main.
